@@ -1,6 +1,6 @@
 (* C09 - whitespace, comments, keyword case never change the parse (statements about the engine model of Model/Peg.v). *)
 From Coq Require Import List NArith Bool.
-From MoSql Require Import Model.Peg Model.PegSim Proofs.PegProofs Proofs.PegSimProofs Proofs.PegCor.
+From MoSql Require Import Model.Peg Model.PegSim Proofs.PegProofs Proofs.PegSimProofs Proofs.PegLog Proofs.PegCor.
 Import ListNotations.
 Local Open Scope N_scope.
 
@@ -60,3 +60,15 @@ Theorem C09_fuel_independent : forall T o len f1 f2 i raw pos,
   is_abort (fst (run T o len f1 i raw pos)) = false -> is_abort (fst (run T o len f2 i raw pos)) = false ->
   fst (run T o len f2 i raw pos) = fst (run T o len f1 i raw pos).
 Proof. exact run_fuel_independent_pf. Qed.
+
+(* the strong form: with the same fuel the second parse returns the moved outcome AND puts exactly the moved queries to its oracle, in the same
+   order (all but the very first, which is the literal "skip from position 0" on both sides).  Since the oracle answers are the moved answers,
+   every terminal matches the same token in both parses: the two parses have the same derivation.  No condition on the table is needed. *)
+Theorem C09_same_derivation : forall T o1 o2 len1 len2 phi root w0 f,
+  (forall a b, a < b -> phi a < phi b) -> len2 = phi len1 ->
+  o2 (QS w0 0) = phi (o1 (QS w0 0)) ->
+  (forall q, In q (snd (parse_all T o1 len1 f root w0)) -> comm o1 o2 phi q) ->
+  is_abort (fst (parse_all T o1 len1 f root w0)) = false ->
+  fst (parse_all T o2 len2 f root w0) = mapres phi (fst (parse_all T o1 len1 f root w0)) /\
+  tl (snd (parse_all T o2 len2 f root w0)) = map (mapq phi) (tl (snd (parse_all T o1 len1 f root w0))).
+Proof. exact C09_same_derivation_pf. Qed.
